@@ -30,9 +30,8 @@ func (cl *Client) Wait() (out []byte, closed bool) {
 	if !ok {
 		cl.Hung = true
 	}
-	all := cl.C.Out()
-	out = all[cl.pos:]
-	cl.pos = len(all)
+	out = cl.C.OutFrom(cl.pos)
+	cl.pos += len(out)
 	return out, closed
 }
 
@@ -67,8 +66,7 @@ func (cl *Client) StartupOK(user string) error {
 func (cl *Client) Finish() (out []byte, ok bool) {
 	cl.C.CloseWrite()
 	ok = cl.C.WaitClosed()
-	all := cl.C.Out()
-	out = all[cl.pos:]
-	cl.pos = len(all)
+	out = cl.C.OutFrom(cl.pos)
+	cl.pos += len(out)
 	return out, ok
 }
